@@ -285,7 +285,7 @@ def run(ctx: common.Ctx):
     quick = ctx.tier == "quick"
     dts = ["int64", "float64", "int8", "uint16", "bool", "utf8", "nint64", "nfloat32", "nbool", "nutf8", "float32", "uint64", "int32", "nuint8"]
     jobs = [(d, ctx.seed * 211 + k) for d in dts for k in range(14 if quick else 200)]
-    for job, r in zip(jobs, tables.pmap(setitem_worker, jobs, chunk=8)):
+    for job, r in tables.pairs(ctx, jobs, tables.pmap(setitem_worker, jobs, chunk=8)):
         if isinstance(r, tables.Crashed):
             ctx.violation("setitem/interpreter-crash", f"{job}: worker died", {"job": repr(job)}); continue
         if r.get("skip"):
@@ -300,7 +300,7 @@ def run(ctx: common.Ctx):
     # sharing table
     sd = ["int64", "float32", "bool", "utf8", "nint64", "nbool", "nutf8", "int8"]
     sjobs = [(fn, d, m) for fn in list(PURE_CALLS) + list(NO_COPY) for d in sd for m in ("eager", "lazy")]
-    rows = tables.pmap(sharing_row, sjobs, chunk=16)
+    rows = tables.pmap(sharing_row, sjobs, chunk=16, strict=True)
     table = []
     for (fn, d, m), r in zip(sjobs, rows):
         if isinstance(r, tables.Crashed) or "skip" in r:
@@ -321,7 +321,7 @@ def run(ctx: common.Ctx):
     ctx.extra["sharing_table_rows"] = len(table)
     # histories
     hjobs = [(ctx.seed * 9973 + k,) for k in range(120 if quick else 2500)]
-    for job, r in zip(hjobs, tables.pmap(history_worker, hjobs, chunk=8)):
+    for job, r in tables.pairs(ctx, hjobs, tables.pmap(history_worker, hjobs, chunk=8)):
         if isinstance(r, tables.Crashed):
             ctx.violation("history/interpreter-crash", f"{job}: worker died", {"job": repr(job)}); continue
         inplace = any("=" in s and ("[" in s.split("=")[0] or "+=" in s or "*=" in s) for s in r["steps"])
